@@ -14,6 +14,7 @@ def sh(cmd, cwd=None, env=None, timeout=3600):
     p = subprocess.run(cmd, shell=True, cwd=cwd, env=env, capture_output=True, text=True, timeout=timeout)
     return p.returncode, (p.stdout + p.stderr)
 rec = dict(meta)
+rec["evaluated_at_repo_head"] = subprocess.run("git -C /repo rev-parse --short HEAD", shell=True, capture_output=True, text=True).stdout.strip()
 try:
     assert sh(f"git -C /repo worktree add -q --detach {wt} HEAD")[0] == 0
     demo = os.path.join(src, "demo_test.py")
